@@ -5,6 +5,7 @@ package c02
 import (
 	"fmt"
 	"runtime"
+	"sort"
 	"strings"
 	"sync"
 	"sync/atomic"
@@ -40,6 +41,7 @@ var Prop = &engine.Prop{
 	Floors: map[string]int64{
 		"pending_observations": 500,
 		"multi_key_pending":    20,
+		"long_key_lists":       20,
 		"reader_sharing":       50,
 		"drain_steps":          500,
 		"stress_sections":      1000,
@@ -87,18 +89,52 @@ func (a *anyLocker) RUnlocks(ks []int) { panic("no multi") }
 func (a *anyLocker) Entries() int      { return a.ent() }
 
 type tLocker[T comparable] struct {
-	name string
-	l    keylock.TLocker[T]
-	ent  func() int
-	conv func(int) T
+	name  string
+	l     keylock.TLocker[T]
+	ent   func() int
+	conv  func(int) T
+	bmu   sync.Mutex
+	inUse map[*int][]T
+	free  map[int][][]T
 }
 
+// ks converts a key list. Multi-key callers commonly reuse one buffer for successive lists,
+// so the adapter does the same: the slice handed to Locks/RLocks comes from a pool keyed by the
+// model list's identity and goes back to the pool when the matching Unlocks/RUnlocks returned;
+// the next list of that length then reuses the backing array with new contents.
 func (a *tLocker[T]) ks(ks []int) []T {
-	out := make([]T, len(ks))
+	a.bmu.Lock()
+	defer a.bmu.Unlock()
+	if a.inUse == nil {
+		a.inUse = map[*int][]T{}
+		a.free = map[int][][]T{}
+	}
+	id := &ks[0]
+	if b, ok := a.inUse[id]; ok {
+		return b
+	}
+	var out []T
+	if fl := a.free[len(ks)]; len(fl) > 0 {
+		out = fl[len(fl)-1]
+		a.free[len(ks)] = fl[:len(fl)-1]
+	} else {
+		out = make([]T, len(ks))
+	}
 	for i, k := range ks {
 		out[i] = a.conv(k)
 	}
+	a.inUse[id] = out
 	return out
+}
+
+func (a *tLocker[T]) recycle(ks []int) {
+	a.bmu.Lock()
+	defer a.bmu.Unlock()
+	id := &ks[0]
+	if b, ok := a.inUse[id]; ok {
+		delete(a.inUse, id)
+		a.free[len(ks)] = append(a.free[len(ks)], b)
+	}
 }
 func (a *tLocker[T]) Name() string      { return a.name }
 func (a *tLocker[T]) Multi() bool       { return true }
@@ -107,9 +143,9 @@ func (a *tLocker[T]) Unlock(k int)      { a.l.Unlock(a.conv(k)) }
 func (a *tLocker[T]) RLock(k int)       { a.l.RLock(a.conv(k)) }
 func (a *tLocker[T]) RUnlock(k int)     { a.l.RUnlock(a.conv(k)) }
 func (a *tLocker[T]) Locks(ks []int)    { a.l.Locks(a.ks(ks)) }
-func (a *tLocker[T]) Unlocks(ks []int)  { a.l.Unlocks(a.ks(ks)) }
+func (a *tLocker[T]) Unlocks(ks []int)  { a.l.Unlocks(a.ks(ks)); a.recycle(ks) }
 func (a *tLocker[T]) RLocks(ks []int)   { a.l.RLocks(a.ks(ks)) }
-func (a *tLocker[T]) RUnlocks(ks []int) { a.l.RUnlocks(a.ks(ks)) }
+func (a *tLocker[T]) RUnlocks(ks []int) { a.l.RUnlocks(a.ks(ks)); a.recycle(ks) }
 func (a *tLocker[T]) Entries() int      { return a.ent() }
 
 type entCounter interface{ VerifEntries() int }
@@ -189,12 +225,14 @@ func (o *lop) mentions(k int) bool {
 	return false
 }
 
-const nkeys = 4
+const nkeys = 24 // universe; most cases use only the first 4 (hot) keys
 
 func schedCase(k *engine.Case) {
 	r := k.R
 	l := newLocker(r)
-	k.Logf("locker=%s", l.Name())
+	const hot = 4
+	long := l.Multi() && r.Intn(4) == 0 // some cases use long multi-key lists over the whole universe
+	k.Logf("locker=%s long-lists=%v", l.Name(), long)
 	d := engine.NewDriver(Q, k)
 	var ops []*lop
 
@@ -262,18 +300,29 @@ func schedCase(k *engine.Case) {
 		o.write = c < 45
 		if l.Multi() && r.Intn(100) < 40 {
 			o.multi = true
-			n := 2 + r.Intn(2)
-			// sub-sequence of the global order 0<1<2<3
-			for len(o.keys) < n {
-				o.keys = o.keys[:0]
-				for x := 0; x < nkeys; x++ {
-					if r.Intn(2) == 0 {
-						o.keys = append(o.keys, x)
+			if long && r.Intn(2) == 0 {
+				// long list (13-20 keys): a sub-sequence of the global order 0<1<...<23
+				n := 13 + r.Intn(8)
+				pick := r.Perm(nkeys)[:n]
+				sort.Ints(pick)
+				o.keys = pick
+				k.Count("long_key_lists", 1)
+			} else {
+				n := 2 + r.Intn(2)
+				// sub-sequence of the global order over the hot keys 0<1<2<3
+				for len(o.keys) < n {
+					o.keys = o.keys[:0]
+					for x := 0; x < hot; x++ {
+						if r.Intn(2) == 0 {
+							o.keys = append(o.keys, x)
+						}
 					}
 				}
 			}
-		} else {
+		} else if long && r.Intn(3) == 0 {
 			o.keys = []int{r.Intn(nkeys)}
+		} else {
+			o.keys = []int{r.Intn(hot)}
 		}
 		ops = append(ops, o)
 		return o
@@ -476,7 +525,8 @@ func stressCase(k *engine.Case) {
 
 	var readers, writers [nkeys]atomic.Int64
 	var canary [nkeys]int
-	var conflicts, maxReaders, total, multiSections atomic.Int64
+	var conflicts, maxReaders, total, multiSections, longSections atomic.Int64
+	longLists := l.Multi() && r.Intn(2) == 0
 	d := engine.NewDriver(Q, k)
 	seeds := make([]int64, workers)
 	for i := range seeds {
@@ -494,14 +544,24 @@ func stressCase(k *engine.Case) {
 				write := next()%3 == 0
 				var keys []int
 				if multi && next()%3 == 0 {
+					width := 4
+					if longLists && next()%2 == 0 {
+						width = nkeys
+					}
 					for len(keys) < 2 {
 						keys = keys[:0]
 						m := next()
-						for b := 0; b < nkeys; b++ {
+						if width == nkeys {
+							m |= next() << 7 // dense: 13+ keys are common
+						}
+						for b := 0; b < width; b++ {
 							if m&(1<<b) != 0 {
 								keys = append(keys, b)
 							}
 						}
+					}
+					if len(keys) > 12 {
+						longSections.Add(1)
 					}
 					multiSections.Add(1)
 					if write {
@@ -510,7 +570,7 @@ func stressCase(k *engine.Case) {
 						l.RLocks(keys)
 					}
 				} else {
-					keys = []int{int(next() % nkeys)}
+					keys = []int{int(next() % 4)}
 					if write {
 						l.Lock(keys[0])
 					} else {
@@ -584,6 +644,7 @@ func stressCase(k *engine.Case) {
 	d.Join()
 	k.Count("stress_sections", total.Load())
 	k.Count("stress_multi_key_sections", multiSections.Load())
+	k.Count("stress_long_list_sections", longSections.Load())
 	k.C.Max("stress_reader_concurrency", maxReaders.Load())
 	k.Logf("sections=%d multi=%d max concurrent readers=%d conflicts=%d", total.Load(), multiSections.Load(), maxReaders.Load(), conflicts.Load())
 	if c := conflicts.Load(); c > 0 {
